@@ -109,6 +109,10 @@ def run_unit(unit, repo, lib, max_paths=400):
             ex = Exec(repo, lib, prefix=prefix, loops=unit.loops(cfg), summaries=unit.summaries(cfg), feas_cache=feas, opts=unit.opts(cfg))
             ctx = Ctx(ex, unit, label, cfg, repo)
             completed = False
+            # the library model table is shared by all units of a check: whatever a unit overrides in it for its own purpose (a model swapped for an uninterpreted
+            # symbol, a recording stub) must not leak into the units that run after it - snapshot before every path, restore afterwards
+            ns_snap = {k: (ns, dict(ns.entries)) for k, ns in lib.ns.items() if hasattr(ns, "entries")}
+            rm_snap = dict(lib.rec_methods) if hasattr(lib, "rec_methods") else None
             try:
                 unit.run(ctx)
                 completed = True
@@ -128,6 +132,16 @@ def run_unit(unit, repo, lib, max_paths=400):
                 res.errors.append(f"[{label}] z3: {e}")
             except Exception as e:
                 res.errors.append(f"[{label}] checker crash: {type(e).__name__}: {e}\n{traceback.format_exc(limit=6)}")
+            for k in list(lib.ns):
+                if k not in ns_snap:
+                    del lib.ns[k]
+            for k, (ns, ent) in ns_snap.items():
+                lib.ns[k] = ns
+                ns.entries.clear()
+                ns.entries.update(ent)
+            if rm_snap is not None:
+                lib.rec_methods.clear()
+                lib.rec_methods.update(rm_snap)
             res.paths += 1
             res.assumptions |= ex.assumptions_used
             for ob in ex.obligations:
